@@ -45,7 +45,7 @@ theorem C13_reject_is_a_patch (o : Options) (s0 : DState) (name pname bytes oldt
         Valid (splitLines bytes2) 0 0 [h] →
         (runPatch o2 s2).1 = 0 ∧
         (runPatch o2 s2).2.fs.lookup name2 =
-          some (.file (renderLines o2.newlineOutput (splice (splitLines bytes2) 0 [h])) m2) ∧
+          some (.file (Render.renderText o2.newlineOutput (splice (splitLines bytes2) 0 [h])) m2) ∧
         ∀ q, q ≠ name2 → (runPatch o2 s2).2.fs.lookup q = s2.fs.lookup q := by
   have h1 := C04_run_rejected o s0 name pname bytes oldt newt m pm h ho hstrip hreal hs0 hrw hn hfree hpn hpd htarget hw hot hnt
     hpatch hh hloc hrloc
@@ -76,7 +76,7 @@ theorem C13_reject_applies_in_place (o o2 : Options) (s0 s2 : DState) (name pnam
     (ho2 : RunOpts o2 name2 (name ++ str ".rej")) (hreal2 : o2.dryRun = false) (hs2 : CleanStart s2)
     (htree : ∀ q, s2.fs.lookup q = (runPatch o s0).2.fs.lookup q) :
     (runPatch o s0).1 = 1 ∧ (runPatch o2 s2).1 = 0 ∧
-    (runPatch o2 s2).2.fs.lookup name2 = some (.file (renderLines o2.newlineOutput (splice (splitLines bytes2) 0 [h])) m2) ∧
+    (runPatch o2 s2).2.fs.lookup name2 = some (.file (Render.renderText o2.newlineOutput (splice (splitLines bytes2) 0 [h])) m2) ∧
     (runPatch o2 s2).2.fs.lookup name = some (.file (renderLines o.newlineOutput (splitLines bytes)) m) ∧
     (∃ rm, (runPatch o2 s2).2.fs.lookup (name ++ str ".rej") = some (.file (diffText name name oldt newt [h]) rm)) ∧
     ∀ q, q ≠ name2 → q ≠ name → q ≠ name ++ str ".rej" → (runPatch o2 s2).2.fs.lookup q = s0.fs.lookup q := by
@@ -140,7 +140,7 @@ theorem applies :
     (by decide) rfl diffHunks (by decide +kernel) (Or.inr (by decide +kernel))
     (by decide) (by decide) (by rw [e]; decide) rfl (by decide) (validB_sound _ _ _ _ (by decide)) runOpts2 rfl
     ⟨rfl, rfl, rfl, rfl, rfl, by decide +kernel⟩ (fun _ => rfl)
-  have hm : renderLines o2.newlineOutput (splice (splitLines bytes) 0 [hk]) = result := by decide
+  have hm : Render.renderText o2.newlineOutput (splice (splitLines bytes) 0 [hk]) = result := by decide
   have hx : renderLines o.newlineOutput (splitLines xyz) = xyz := by decide
   rw [e, hm, hx] at h
   exact h
@@ -162,7 +162,7 @@ theorem applies_elsewhere :
     { plain := { operand := rfl, noOut := rfl, noBackup := rfl, noReverse := rfl, noDefine := rfl, fuzz := by decide, quiet := rfl },
       file := { patchFile := rfl, noDir := rfl, noHelp := rfl, noVersion := rfl, noContext := rfl, noNormal := rfl, noEd := rfl } }
     rfl ⟨rfl, rfl, rfl, rfl, rfl, rfl⟩ (by decide) (by decide) (by decide) rfl (by decide) rfl (validB_sound _ _ _ _ (by decide))
-  have hm : renderLines o2.newlineOutput (splice (splitLines bytes) 0 [hk]) = result := by decide
+  have hm : Render.renderText o2.newlineOutput (splice (splitLines bytes) 0 [hk]) = result := by decide
   exact ⟨h3.1, by rw [← hm]; exact h3.2.1⟩
 
 -- independently: the executable model, the two runs one after the other
